@@ -33,6 +33,8 @@ type Beh struct {
 	TransFail  bool `json:"trans_fail,omitempty"` // every transition is refused
 	ExitOnDone int  `json:"exit_on_done"`         // -1: stays alive in DONE, else exits with this code on DONE
 	BadStart   bool `json:"bad_start,omitempty"`  // reports ERROR instead of STANDBY at start
+	Sticky     bool `json:"sticky,omitempty"`     // acknowledges every transition (ok, same event) without moving
+	StickyExit bool `json:"sticky_exit,omitempty"` // acknowledges EXIT without moving; other transitions work
 }
 
 type Scenario struct {
@@ -165,7 +167,8 @@ func (r *runner) taskInfo() (mesos.TaskInfo, error) {
 		port = freePort()
 		ob := occBeh{Port: port, ListenGate: true, ReadyGate: true, PidZero: r.sc.Beh.PidZero,
 			TransFail: r.sc.Beh.TransFail, ExitOnDone: r.sc.Beh.ExitOnDone, Ign: r.sc.Beh.Ign,
-			Fork: r.sc.Beh.Fork, Exit: r.sc.Beh.Exit, SelfSig: r.sc.Beh.SelfSig}
+			Fork: r.sc.Beh.Fork, Exit: r.sc.Beh.Exit, SelfSig: r.sc.Beh.SelfSig,
+			Sticky: r.sc.Beh.Sticky, StickyExit: r.sc.Beh.StickyExit}
 		if r.sc.Beh.BadStart {
 			ob.StartState = "ERROR"
 		}
